@@ -28,9 +28,9 @@ Definition cell_to_object (e : cfg) (v : cell) : objres :=
   | CTime _ => ObjNone
   end.
 
-(* rows agree on every binding they share (the test added by fix F14) *)
+(* rows agree on every binding they share (compatibleRows / sameValue, added by fix F14) *)
 Definition compatible (r nr : row) : bool :=
-  forallb (fun kv => match get r (fst kv) with Some v => cell_eqb v (snd kv) | None => true end) nr.
+  forallb (fun kv => match get r (fst kv) with Some v => cell_equiv v (snd kv) | None => true end) nr.
 
 Definition null_row (bs : list str) (r : row) : row :=
   map (fun k => (k, CNull)) (filter (fun k => negb (has r k)) bs).
